@@ -96,6 +96,10 @@ class Spec(core.PropSpec):
             stack["root"]["clobber"][str(ro.randint(0, 12))] = [ro.choice(["np", "torch", "py", "advance"]), ro.randint(0, 999)]
         if ro.random() < 0.2:
             stack["root"]["fail_at"] = sorted({ro.randint(1, 15) for _ in range(ro.randint(1, 2))})  # transient storage errors
+        rl = st("lazy")
+        if stack["root"].get("kind") == "pil" and rl.random() < 0.35:
+            # the read error surfaces INSIDE the transform (lazily decoded image), after it may have drawn random numbers
+            stack["root"]["lazy_fail_at"] = sorted({rl.randint(1, 12) for _ in range(rl.randint(1, 3))})
         if ro.random() < 0.15 and not streams:
             stack["seeded"]["seed"] = ro.choice([2 ** 31 - 1, 2 ** 32 + 5, 2 ** 62 + 11])  # "all seeds"
         rp = core.Streams(seed)("preempt")
@@ -210,7 +214,7 @@ class Spec(core.PropSpec):
             out.rejected = True
             return vio
         refs = {}
-        ref_stack = dict(stack, root=dict(stack["root"], clobber={}, fail_at=[]))
+        ref_stack = dict(stack, root=dict(stack["root"], clobber={}, fail_at=[], lazy_fail_at=[]))
 
         def ref(i):
             i = int(i)
@@ -268,8 +272,13 @@ class Spec(core.PropSpec):
             if ep["gen_seed"] is not None:
                 kw["generator"] = torch.Generator().manual_seed(ep["gen_seed"])
             try:
-                with main.on_cpu():
-                    delivered = list(Ld(ds, **kw))
+                from .simdata import disarm_flaky_files
+                try:
+                    with main.on_cpu():
+                        delivered = list(Ld(ds, **kw))
+                finally:
+                    if disarm_flaky_files():
+                        out.count("lazy_image_never_decoded_by_the_stack")
             except Exception as e:
                 if core.caused_by(e, InjectedReadError):
                     # the storage failed while a worker fetched a batch: the epoch is lost (that is allowed); later epochs in
